@@ -254,6 +254,27 @@ fn targeted(seed: u64, tier: &str) -> Vec<Doc> {
         };
         v.push(Doc { class: format!("extreme-mapping-{}", i % 8), path: None, data: doc.into_bytes(), dpi: 96.0 });
     }
+    // bounding-box paint inside the content of masks that are NOT shared (bounding-box units): third and later members
+    // of a mask chain, masks on elements inside a pattern used by two shapes, masks inside masks' content — every
+    // gradient and pattern in there still has to come out in user space
+    let nk = (if tier == "thorough" { 600 } else { 80 }) * budget_mult();
+    for i in 0..nk {
+        let depth = 1 + rng.below(4) as usize;
+        let mut defs = String::from(r#"<linearGradient id="og"><stop offset="0" stop-color="white"/><stop offset="1" stop-color="gray"/></linearGradient><pattern id="op" width="0.5" height="0.5" patternContentUnits="objectBoundingBox"><rect width="0.25" height="0.25" fill="white"/></pattern>"#);
+        for k in 0..depth {
+            let link = if k + 1 < depth { format!(r##" mask="url(#km{})""##, k + 1) } else { String::new() };
+            let paint = if (i as usize + k) % 2 == 0 { "url(#og)" } else { "url(#op)" };
+            defs += &format!(r##"<mask id="km{k}"{link}{}><rect x="0" y="0" width="{}" height="{}" fill="{paint}" stroke="{}" stroke-width="0.02"/></mask>"##, if rng.chance(1, 2) { r#" maskContentUnits="objectBoundingBox""# } else { "" }, if rng.chance(1, 2) { "1" } else { "90" }, if rng.chance(1, 2) { "1" } else { "70" }, if rng.chance(1, 3) { "url(#og)" } else { "none" });
+        }
+        let body = match i % 3 {
+            0 => r##"<rect x="10" y="10" width="80" height="60" fill="green" mask="url(#km0)"/>"##.to_string(),
+            1 => r##"<rect x="10" y="10" width="40" height="30" fill="green" mask="url(#km0)"/><circle cx="70" cy="60" r="20" fill="blue" mask="url(#km0)"/>"##.to_string(),
+            _ => r##"<pattern id="host" width="40" height="40" patternUnits="userSpaceOnUse"><rect width="30" height="30" fill="teal" mask="url(#km0)"/></pattern><rect width="60" height="50" fill="url(#host)"/><circle cx="80" cy="70" r="15" fill="url(#host)"/>"##.to_string(),
+        };
+        let (defs, body) = if i % 3 == 2 { (format!("{defs}{}", &body[..body.find("</pattern>").unwrap() + 10]), body[body.find("</pattern>").unwrap() + 10..].to_string()) } else { (defs, body) };
+        let doc = format!(r#"<svg xmlns="http://www.w3.org/2000/svg" width="100" height="100"><defs>{defs}</defs>{body}</svg>"#);
+        v.push(Doc { class: "paint-inside-unshared-masks".into(), path: None, data: doc.into_bytes(), dpi: 96.0 });
+    }
     for f in std::fs::read_dir("/verif/findings/C04").into_iter().flatten().flatten() {
         if let Ok(data) = std::fs::read(f.path()) {
             v.insert(0, Doc { class: "past-failure".into(), path: None, data, dpi: 96.0 });
